@@ -7,6 +7,8 @@ package main
 // child process (a crash is an observation).
 
 import (
+	"github.com/MichaelMure/git-bug/cache"
+	"time"
 	"encoding/json"
 	"fmt"
 	"os"
@@ -47,6 +49,7 @@ var c07BugMuts = map[string]bool{
 	// commit / dag level
 	"clock-equal": true, "clock-jump": true, "merge-with-ops": true, "foreign-root-merge": true,
 	"merge-clock-equal": true, "merge-clock-below": true,
+	"same-id-other-root": true,
 	// ref level
 	"ref-name-mismatch": true, "ref-to-blob": true, "ref-to-tree": true, "ref-bad-name": true,
 	// root level (a new bug)
@@ -89,8 +92,8 @@ func (c07Driver) Gen(r *Rand, tier string) []json.RawMessage {
 			}
 		}
 		for _, m := range bm {
-			if strings.HasPrefix(m, "ref-") || strings.HasPrefix(m, "root-") || m == "first-op-not-create" {
-				continue
+			if strings.HasPrefix(m, "ref-") || (strings.HasPrefix(m, "root-") && m != "root-empty-pack") || m == "first-op-not-create" || m == "same-id-other-root" {
+				continue // (same-id-other-root is a valid bug on its own: corrupt only relative to what the victim holds)
 			}
 			// the same corrupt commit found under a LOCAL ref: reading must report an error, not crash
 			res = append(res, mustJSON(c07Input{Sit: "equal", Mut: m, Kind: "localbug", Salt: r.Intn(1000)}))
@@ -420,6 +423,33 @@ func (c07Driver) Run(raw json.RawMessage) Case {
 			mc := store(mes, base, c.Parents[0])
 			es = replace(es, "edit-clock-", repository.TreeEntry{ObjectType: repository.Blob, Hash: emptyBlob, Name: fmt.Sprintf("edit-clock-%d", mEdit+1)})
 			parents = []repository.Hash{mc}
+		case "same-id-other-root":
+			// the same bug id (a byte-identical first operation pack) on ANOTHER root commit, then a comment: a
+			// history that shares nothing with what the victim holds
+			if in.Sit == "absent" {
+				return Case{Skip: "a foreign root of an unknown bug is simply a new bug"}
+			}
+			commits := refCommits(repoB, trackRef)
+			first, err := repoB.ReadCommit(repository.Hash(commits[0]))
+			must(err, "read first commit")
+			_ = repoB.LocalConfig().StoreString("user.name", "somebody else")
+			_ = repoB.LocalConfig().StoreString("user.email", "else@example.com")
+			root, err := repoB.StoreCommit(first.TreeHash)
+			must(err, "store other root")
+			if string(root) == commits[0] {
+				// same author, same second: the commit object is the same one; a second later it is not
+				time.Sleep(1100 * time.Millisecond)
+				root, err = repoB.StoreCommit(first.TreeHash)
+				must(err, "store other root")
+			}
+			_ = repoB.LocalConfig().StoreString("user.name", "testuser")
+			_ = repoB.LocalConfig().StoreString("user.email", "testuser@example.com")
+			if string(root) == commits[0] {
+				return Case{Skip: "could not make a distinct root commit"}
+			}
+			rc, _, _ := readCommitRaw(repoB, root)
+			es = replace(es, "edit-clock-", repository.TreeEntry{ObjectType: repository.Blob, Hash: emptyBlob, Name: fmt.Sprintf("edit-clock-%d", rc.Edit+1)})
+			parents = []repository.Hash{root}
 		case "foreign-root-merge":
 			otherHead, _ := repoB.ResolveRef("refs/bugs/" + string(other.Id()))
 			oc, _, _ := readCommitRaw(repoB, otherHead)
@@ -640,6 +670,13 @@ func (c07Driver) Run(raw json.RawMessage) Case {
 		obs.Readable = true
 		if (err1 == nil) != (err2 == nil) {
 			obs.Readable, obs.ReadErr = false, "Read and ReadAll disagree on the corrupt bug"
+		}
+		// every command builds (or loads) the cache over what is stored locally: corrupt data must be reported by
+		// the build, not crash it (a panic in the build's goroutine kills this worker: the case is then "crashed")
+		if rc, events := cache.NewNamedRepoCache(repoB, ""); rc != nil {
+			for range events {
+			}
+			_ = rc.Close()
 		}
 		expectInvalid := c07BugMuts[in.Mut]
 		switch in.Mut {
